@@ -650,6 +650,17 @@ func c19(c *Ctx) {
 					ok = true
 				}
 			}
+			// reflect.ValueOf(original).Type() is the same type
+			if tc, ok2 := as[0].V.(*ssa.Call); ok2 && calleeName(tc.Common()) == "(reflect.Value).Type" {
+				for _, a := range origins(tc.Call.Args[0]) {
+					if vc, ok3 := a.V.(*ssa.Call); ok3 && calleeName(vc.Common()) == "reflect.ValueOf" && peel(vc.Call.Args[0]) == ssa.Value(interceptor.Params[0]) {
+						ok = true
+					} else {
+						ok = false
+						break
+					}
+				}
+			}
 		}
 		r.Check(ok, "C19.R2", "wrapper type in "+shortName(interceptor), p.Pos(posOf(cs)), "MakeFunc(TypeOf(original), …)", "the debug wrapper is not created with the original callback's own type")
 	}
